@@ -133,8 +133,14 @@ Definition candidates (s : sm) (c1 c2 c3 : N) : list event :=
 Definition blocks (s : sm) (e : event) : bool :=
   existsb (fun o => match o with OBlocked => true | _ => false end) (snd (step s e)).
 
+Definition panics (s : sm) (e : event) : bool :=
+  match run (fst (step s e)) with Panicked _ => true | _ => false end.
+
+(** Events that make the state machine panic end a trace (and cost a harness restart): they are
+    kept in one step out of four only. *)
 Definition pick (s : sm) (c0 c1 c2 c3 : N) : option event :=
-  let cs := filter (fun e => deliverable s e && negb (blocks s e)) (candidates s c1 c2 c3) in
+  let cs := filter (fun e => deliverable s e && negb (blocks s e) && ((c3 mod 4 =? 0) || negb (panics s e)))
+                   (candidates s c1 c2 c3) in
   match cs with
   | [] => None
   | _ => nth_error cs (N.to_nat (c0 mod nlen cs))
